@@ -363,6 +363,40 @@ def main():
         return {"size_guards": guards, "size_guard_sites": sites}
     attempt(["size_guards"], t_size_guards)
 
+    # get_value_len, and the lengths the incr/decr and set parsers require of the body
+    SIZEOF = {"u8": 1, "u16": 2, "u32": 4, "u64": 8}
+    def no_sizeof(text):
+        return re.sub(r"std::mem::size_of::<(u8|u16|u32|u64)>\(\)", lambda mm: "%dusize" % SIZEOF[mm.group(1)], text)
+
+    def t_value_len():
+        body = rsexpr.strip_noise(rsexpr.fn_body(codec, "get_value_len")).strip()
+        env = header_env()
+        ty, term = rsexpr.translate(no_sizeof(body), env, want="num")
+        if not env.used <= {"self.header.body_length", "self.header.key_length", "self.header.extras_length"}:
+            raise RsError("get_value_len reads %s" % sorted(env.used))
+        return {"value_len": term}
+    attempt(["value_len"], t_value_len)
+
+    def required_len_of(fname, extra_vars):
+        body = no_sizeof(rsexpr.strip_noise(rsexpr.fn_body(codec, fname)))
+        m = re.search(r"let\s+required_len\s*=\s*([^;]*);\s*if\s+src\.len\(\)\s*<\s*required_len\s*\{", body, re.S)
+        if not m:
+            raise RsError("%s: `let required_len = ..; if src.len() < required_len` not found" % fname)
+        env = header_env(extra_vars)
+        ty, term = rsexpr.translate(m.group(1), env, want="num", hint="usize")
+        return term
+
+    def t_incdec_required():
+        return {"incdec_required": required_len_of("parse_inc_dec_request", [])}
+    attempt(["incdec_required"], t_incdec_required)
+
+    def t_set_required():
+        body = rsexpr.strip_noise(rsexpr.fn_body(codec, "parse_set_request"))
+        if not re.search(r"let\s+value_len\s*=\s*self\.get_value_len\(\)\s*;", body):
+            raise RsError("parse_set_request: `let value_len = self.get_value_len();` not found")
+        return {"set_required": required_len_of("parse_set_request", [("value_len", ("usize", "value_len"))])}
+    attempt(["set_required"], t_set_required)
+
     def meta_env(prefix):
         return rsexpr.Env({prefix + ".header.time_to_live": (meta_fields["time_to_live"], "ttl"),
                            prefix + ".header.timestamp": (meta_fields["timestamp"], "ts"),
@@ -570,6 +604,9 @@ def main():
     emit_fn("header_valid", "MemcacheBinaryCodec::header_valid", "(h_magic h_opcode h_data_type : N)", "bool")
     emit_fn("request_valid", "MemcacheBinaryCodec::request_valid",
             "(h_extras_length h_key_length h_body_length : N) (key_required : bool)", "bool")
+    emit_fn("value_len", "MemcacheBinaryCodec::get_value_len", "(h_body_length h_key_length h_extras_length : N)", "N")
+    emit_fn("incdec_required", "parse_inc_dec_request: the body length it requires", "(h_key_length : N)", "N")
+    emit_fn("set_required", "parse_set_request: the body length it requires", "(h_key_length value_len : N)", "N")
     A("(* every `if` of the codec that compares the announced body length with the item size limit *)")
     if "size_guards" in gen:
         A("Definition src_size_guards_ok : bool := true.")
